@@ -700,7 +700,7 @@ def main():
     if not single:
         run.require("maps_dropping_several_envs")
     thorough = tier() == "thorough"
-    cases = make_cases(20000 if thorough else 480)
+    cases = make_cases(20000 if thorough else 1920)
     # pmap deals cases round-robin: shuffle so that the engine cases (every 4th) spread over all workers
     gen.rng_for(seed(), "C16order").shuffle(cases)
     res = pmap("vf.checks.c16:run_case", cases, cpu_budget=120)
